@@ -136,3 +136,54 @@ def keep(d, v, pid, needs, all_props=False):
 
 if __name__ == "__main__" and sys.argv[1] == "keep":
     sys.exit(keep(sys.argv[2], sys.argv[3], sys.argv[4], sys.argv[5]))
+
+
+def refcheck(d):
+    """behaviour-preserving refactorings: every check must stay silent"""
+    import glob
+    out = {}
+    for p in sorted(glob.glob(os.path.join(d, "patch_r*.diff"))):
+        res = check(p, ["C%02d" % i for i in range(1, 21)])
+        out[os.path.basename(p)] = {k: (v["rc"], v["fired"], (v["first"] or v["err"])[:1]) for k, v in res.items()}
+    return out
+
+
+if __name__ == "__main__" and sys.argv[1] == "refcheck":
+    r = refcheck(sys.argv[2])
+    for p, v in r.items():
+        print(p, "SILENT" if not v else "")
+        for k, (rc, fired, first) in v.items():
+            print("   ", k, "rc", rc, fired, (first[0][:230] if first else ""))
+
+
+def regress():
+    """all stored seeds must be caught by their own property; all stored refactorings must leave every check silent"""
+    import glob
+    from concurrent.futures import ThreadPoolExecutor
+    rows = []
+    seeds = sorted(d for d in glob.glob(os.path.join(VERIF, "seeded", "C*")) if os.path.isdir(d))
+
+    def s_one(d):
+        pid = os.path.basename(d)[:3]
+        res = check(os.path.join(d, "patch.diff"), [pid])
+        r = res.get(pid, {})
+        return os.path.basename(d), r.get("rc", 0), r.get("fired", []), r.get("err", [])
+    def r_one(p):
+        res = check(p, ["C%02d" % i for i in range(1, 21)])
+        return os.path.basename(p), {k: (v["rc"], v["fired"] or v["err"]) for k, v in res.items()}
+    with ThreadPoolExecutor(4) as ex:
+        sr = list(ex.map(s_one, seeds))
+        rr = list(ex.map(r_one, sorted(glob.glob(os.path.join(VERIF, "seeded", "refactors", "*.diff")))))
+    caught = [x for x in sr if x[1] == 1]
+    print("SEEDS: %d / %d caught" % (len(caught), len(sr)))
+    for name, rc, fired, err in sr:
+        print("  %-6s %s %s" % (name, "caught" if rc == 1 else ("ERROR " + str(err)[:120] if rc == 2 else "MISSED"), fired))
+    silent = [x for x in rr if not x[1]]
+    print("REFACTORINGS: %d / %d silent" % (len(silent), len(rr)))
+    for name, v in rr:
+        if v:
+            print("  %-10s %s" % (name, {k: (rc, str(f)[:100]) for k, (rc, f) in v.items()}))
+
+
+if __name__ == "__main__" and sys.argv[1] == "regress":
+    regress()
